@@ -12,7 +12,7 @@ CHECKS = {}   # filled by vf/props modules that exist: id -> (category, text, no
 TABLE = {
     "C17": ("fault_enumeration",
             "Normalised reports of true CLI subprocesses under private throw-away HOME directories are compared with the cold report for the model content in force, over cache histories (cold, warm companion, home cache with read-only data directory, stale internal_version, package-directory pickles, model edited / reverted / shadowed, in-process second load), crash points of the cache write (file cut at 0 / header / middle / last byte; real kills of the writer after k bytes of the pickle stream, both cache locations, arch and ISA cache) and races (8 processes released together or staggered on an empty cache); a driver records cache hit/miss/write events so that a 'warm' run without a hit is inconclusive. Evidence lists distinct crash points and race outcomes.",
-            "Trusted: the driver's pickle proxy, os.access patch, write barrier and what-if / library-path actions (vf/cli.py); report normalisation strips only the timestamp and file-name lines. Histories also cover the ISA description, models given by path under user-chosen file names, two models racing in one directory and a model changed in memory only.",
+            "Trusted: the driver's pickle proxy, os.access patch, write barrier and what-if / library-path actions (vf/cli.py); report normalisation strips only the timestamp and file-name lines. Histories also cover the ISA description, models given by path under user-chosen file names, two models racing in one directory, a model changed in memory only, a header-only load as first access, and a cache file written by the reference tree earlier (fixtures/c17, tools/make_cache_fixture.py).",
             "runtime monitoring with fault injection: crash-point and race enumeration over cache histories, report equality oracle",
             "C17"),
     "C18": ("exploration",
